@@ -1,18 +1,90 @@
 """Which units / Kani jobs decide which property, and what stays assumed (hand-written notes; the scanned
-trusted base is added by the machinery)."""
+trusted base is added by the machinery on every run)."""
 
 U1F = ("u1_cache_reader", {"profile": "functional"})
 U1S = ("u1_cache_reader", {"profile": "safety"})
+U2F = ("u2_mapper_reader", {"profile": "functional"})
+U2S = ("u2_mapper_reader", {"profile": "safety"})
+
+BUILDERS_ASSUMED = ("ProguardMapper::create_proguard_mapper and the record-collection loop of ProguardCache::write "
+                    "(HashMap/BTreeMap entry API, Peekable<FilterMap<..>>, HashSet) are outside both verifiers' reach: that they "
+                    "store, per (class, obfuscated method), the method records in file order is ASSUMED")
 
 PROPS = {
+    "C01": {
+        "title": "Line-based retrace returns exactly the recorded call stack",
+        "units": [U1F, U2F],
+        "kani": [],
+        "technique": "Verus (Z3) function contracts on mechanically extracted reader code: iterate_with_lines/next == head of spec retrace(); remap_frame == exact entry block",
+        "level_text": "Deductive proof, for all field values / slice lengths / iterations, that both readers' frame iterators yield exactly "
+                      "retrace(entries, frame) (one frame per applicable entry, in order, with the ProGuard line rule and the file rule), that "
+                      "remap_frame hands the iterator exactly the contiguous block of all entries of the class with that obfuscated method "
+                      "(cache: given the sortedness invariant; mapper: given the HashMap contract), and that unknown class/method yields no frames. "
+                      "Builders (mapping text -> entries) are assumed, so this is a proof about the reader core, not end to end.",
+        "assumed": [BUILDERS_ASSUMED,
+                    "independence of line endings / noise lines is not decided here (see C06)",
+                    "extract_class_name (str::split) has the contract `outer_simple_name`; both textual copies are assumed to implement the same function"],
+        "design_ref": "DESIGN.md 5/C01",
+    },
+    "C02": {
+        "title": "A cache written from a mapping answers every query exactly like the mapper",
+        "units": [U1F, U2F],
+        "kani": [],
+        "technique": "refinement: both readers proved (Verus) against the SAME spec functions retrace/by_params/unanimous through abs_member / abs_mm",
+        "level_text": "Both readers are verified against one shared abstract model, so equal abstract entries give equal answers for remap_class, "
+                      "remap_method, remap_frame (by line and by parameters). That the writer and the mapper builder produce equal abstract "
+                      "entries is proved only for the record-interpretation blocks (unit u3) and otherwise assumed.",
+        "assumed": [BUILDERS_ASSUMED, "text / typed stack-trace remapping and signature deobfuscation through the cache are not decided (fmt / str pattern APIs)"],
+        "design_ref": "DESIGN.md 5/C02",
+    },
+    "C03": {
+        "title": "Parameter-based retrace",
+        "units": [U1F, U2F],
+        "kani": [],
+        "technique": "Verus contracts: iterate_without_lines == head of by_params(); remap_frame(by params) == exact (name, params) block",
+        "level_text": "Proof that a frame carrying parameters is answered from exactly the entries whose (obfuscated name, params) match, one frame "
+                      "per entry in order, with line 0 and no file. De-duplication and inline filtering happen in the builders (assumed).",
+        "assumed": [BUILDERS_ASSUMED],
+        "design_ref": "DESIGN.md 5/C03",
+    },
+    "C04": {
+        "title": "Class lookup exact; method lookup never guesses",
+        "units": [U1F, U2F],
+        "kani": [],
+        "technique": "Verus contracts on get_class / remap_class / remap_method (iff-unanimous postcondition), both readers",
+        "level_text": "Proof that remap_class answers iff a class with exactly that obfuscated name exists, and remap_method answers (class, m) iff "
+                      "the class is known, the method block is non-empty and every entry in it has original name m.",
+        "assumed": ["'last class line wins' is a property of HashMap::insert / BTreeMap::insert inside the builders (assumed)",
+                    "cache: StringTable interning (equal strings <=> equal offsets among a class's members) is part of the assumed representation invariant"],
+        "design_ref": "DESIGN.md 5/C04",
+    },
     "C12": {
+        "title": "No accepted buffer can make a query panic, overflow or read outside",
         "units": [U1S],
         "kani": [],
-        "assumed": ["watto::StringTable::read never panics and is a function of (bytes, offset) (dependency, unverified)"],
+        "technique": "Verus implicit obligations (overflow, bounds, callee preconditions, termination) on the cache reader with NO precondition on field values",
+        "level_text": "Every cache reader function is verified with arbitrary u32 field values and arbitrary slice contents: no arithmetic "
+                      "overflow, no out-of-bounds index/range, loops terminate.",
+        "assumed": ["watto::StringTable::read / leb128 never panic (dependency, unverified)", "watto Pod casts (unsafe) are sound",
+                    "stack-trace text and signature queries are not covered (str/fmt code)"],
+        "design_ref": "DESIGN.md 5/C12",
     },
-    "C01": {
-        "units": [U1F],
+    "C13": {
+        "title": "No mapping bytes and no query can make the library panic or overflow",
+        "units": [U2S],
         "kani": [],
-        "assumed": [],
+        "technique": "Verus implicit obligations on the mapper reader with NO precondition on entry values",
+        "level_text": "The mapper's reader functions are verified with arbitrary usize entry values and any frame: no overflow, no out-of-bounds, termination.",
+        "assumed": ["builders, java.rs tokenizer, stacktrace.rs classifiers and Display impls are not covered"],
+        "design_ref": "DESIGN.md 5/C13",
     },
+}
+
+NOT_APPLICABLE = {
+    "C07": "text trace remapping is str::lines/splitn/split_once + writeln!/Display: Verus has no core::fmt or Pattern support and Kani does not finish on 6 symbolic bytes through str APIs (measured); no contract within reach expresses the line-by-line concatenation",
+    "C14": "quantifies over processes, hash seeds and threads; determinism would only follow from a functional contract on ProguardCache::write whose collection loop (HashMap/HashSet/BTreeMap entry API) is out of reach of both verifiers",
+    "C16": "descriptor tokenizer/renderers are char_indices/rsplit_once/format! code rejected by the Verus front end; Kani does not finish on 6 symbolic bytes (measured)",
+    "C17": "Display impls and str-pattern parsers only (same reach limits as C07)",
+    "C18": "two lines behind lazy_static! and the optional uuid dependency (SHA-1 inside the dependency); feature is off in the pinned build; a contract would restate the call",
+    "C20": "schedules are outside both tools (Kani has no threads; Verus would need its own permission types on code that has no synchronisation); Send+Sync is a type-checker fact",
 }
